@@ -7,7 +7,7 @@ from . import common as C
 CLAUSES = {
     # (which compression an operation DECLARES is not prescribed -- delivered bytes are identified by decoding with whatever
     #  is declared, so a wrong declaration shows as a lookup / stream failure; a mismatch with the model's Decl is an observation)
-    "C08": {"build", "coverage", "cov_contains", "lookup", "stream_sem", "stream"},
+    "C08": {"build", "overlay_coverage", "cov_contains", "lookup", "stream_sem", "stream"},
     # (C09 does not prescribe the advertised coverage of a filter, only C03's containment: an exact-formula mismatch is an
     #  observation, not a violation)
     "C09": {"build", "build_error", "cov_contains", "lookup", "stream_sem", "stream"},
@@ -61,9 +61,9 @@ def run_pipes(prop, tier, seed, replay, stages, rule, nontrivial, run=None, fini
             if cl == "declared":
                 run.observation("declared_compression", {"vpl": fl["case"]["vpl"], "declared": fl["case"].get("declared")})
                 continue
-            if cl == "coverage" and prop == "C09":
+            if cl == "coverage":
                 run.observation("coverage_formula", {"what": "the advertised coverage differs from source coverage /\\ filter box "
-                                                     "(allowed by C09 / C03 as long as it contains every returned tile)", "vpl": fl["case"]["vpl"], "cov": fl["case"].get("cov")})
+                                                     "(the model's formula; the properties ask for containment -- C03 -- and, for overlays, the union of the sources' advertised coverages -- clause overlay_coverage)", "vpl": fl["case"]["vpl"], "cov": fl["case"].get("cov")})
                 continue
             if cl not in CLAUSES[prop]:
                 continue
